@@ -132,9 +132,20 @@ def render (σ : Style) (d : Doc) : Bytes := σ.bom.bytes ++ d.lines.flatten
 
 /-! ## meaning -/
 
+/-- the string without its leading and trailing white space -/
+def trim (s : Bytes) : Bytes := ((s.dropWhile isSpace).reverse.dropWhile isSpace).reverse
+
+/-- what a `key = value` line assigns.  A line without any value text (`key =`, `key = ; note`) assigns
+nothing — an empty value has to be written `""` or `''`; a quoted value loses the blanks directly inside
+the quotes (`" a "` is `a`, `"  "` is the empty value). -/
+def Entry.binding (e : Entry) : Option (Bytes × Bytes) :=
+  match e.quote with
+  | .none => if e.value.isEmpty then none else some (e.key, e.value)
+  | _ => some (e.key, trim e.value)
+
 def entriesOf (body : List Line) : List (Bytes × Bytes) :=
   body.filterMap fun l => match l.body with
-    | .entry e => some (e.key, e.value)
+    | .entry e => e.binding
     | _ => none
 
 /-- the last assignment of a key wins -/
@@ -145,15 +156,41 @@ def lastValue (es : List (Bytes × Bytes)) (k : Bytes) : Option Bytes :=
 def assoc (es : List (Bytes × Bytes)) : List (Bytes × Bytes) :=
   (es.map (·.1)).eraseDups.map fun k => (k, (lastValue es k).getD [])
 
-/-- the non-empty sections with their keys and values -/
+/-- the section assigns something: it is "non-empty" -/
+def Sec.assigns (s : Sec) : Bool := !(entriesOf s.body).isEmpty
+
+/-- the non-empty sections with their keys and values, each section read on its own: the meaning of a
+document whose section names are distinct (`meaning_of_distinct`) -/
 def meaningOf (secs : List Sec) : List (Bytes × List (Bytes × Bytes)) :=
   secs.filterMap fun s =>
     let es := entriesOf s.body
     if es.isEmpty then none else some (s.header.name, assoc es)
 
+/-- Sections are looked up by name.  The order in which a look-up goes through the sections of a file:
+the sections before the final one, latest first, then the final one. -/
+def lookupOrder (secs : List Sec) : List Sec :=
+  match secs.reverse with
+  | [] => []
+  | last :: initRev => initRev ++ [last]
+
+/-- the section a look-up by name sees: the first non-empty one of that name in look-up order.  With
+distinct names that is *the* section of that name; a repeated header does not continue the earlier
+section, it starts a section of its own, and look-ups see only one of the two. -/
+def seenSec (all : List Sec) (n : Bytes) : Option Sec :=
+  ((lookupOrder all).filter Sec.assigns).find? (·.header.name == n)
+
+/-- what the API shows for section `s` of the file `all`: its name, with the keys and values of the section
+a look-up of that name sees -/
+def viewOf (all : List Sec) (s : Sec) : Bytes × List (Bytes × Bytes) :=
+  (s.header.name, assoc (entriesOf ((seenSec all s.header.name).getD s).body))
+
+def meaningIn (all secs : List Sec) : List (Bytes × List (Bytes × Bytes)) :=
+  (secs.filter Sec.assigns).map (viewOf all)
+
 /-- what a reader of the file is entitled to see: the non-empty sections with their keys and values.
-Comment lines, blank lines and the preamble contribute nothing. -/
-def meaning (d : Doc) : List (Bytes × List (Bytes × Bytes)) := meaningOf d.secs
+Comment lines, blank lines and the preamble contribute nothing.  (A name that heads several non-empty
+sections is listed once for each of them, every time with the keys `seenSec` finds.) -/
+def meaning (d : Doc) : List (Bytes × List (Bytes × Bytes)) := meaningIn d.secs d.secs
 
 /-! ## well-formedness: the documented grammar, made explicit -/
 
@@ -180,15 +217,15 @@ def Entry.wf (e : Entry) : Bool :=
   && e.key.head? != some 91
   && plain e.value
   && (match e.quote with
-      -- unquoted: non-empty (`key =` is dropped by the parser), no blanks at its ends, no comment
-      -- marker inside, not starting with a quote
-      | .none => trimmed e.value && !e.value.contains 35 && !e.value.contains 59
+      -- unquoted: empty (`key =`: the line assigns nothing, see `Entry.binding`) or without blanks at its
+      -- ends (they belong to `post` / `trail`), no comment marker inside, not starting with a quote
+      | .none => (e.value.isEmpty || trimmed e.value) && !e.value.contains 35 && !e.value.contains 59
                  && e.value.head? != some 34 && e.value.head? != some 39
-      -- quoted: may be empty; blanks directly inside the quotes would be trimmed, so there are none
-      -- (a quoted value that is itself just the other kind of empty quotes, "''" or '""', is emptied by the
-      -- parser: excluded here and reported as an observation)
-      | .single => !e.value.contains 39 && (e.value.isEmpty || trimmed e.value) && e.value != [34, 34]
-      | .double => !e.value.contains 34 && (e.value.isEmpty || trimmed e.value) && e.value != [39, 39])
+      -- quoted: any text without that quote, blanks at its ends included (they are dropped, see
+      -- `Entry.binding`).  A quoted value that is, blanks aside, just the other kind of empty quotes, "''" or
+      -- '""', is emptied by the parser: excluded here and reported as an observation
+      | .single => !e.value.contains 39 && trim e.value != [34, 34]
+      | .double => !e.value.contains 34 && trim e.value != [39, 39])
   && (match e.comment with | none => true | some c => c.wf)
 
 def Body.wf : Body → Bool
@@ -220,12 +257,10 @@ def linesOk (σ : Style) (d : Doc) : Bool :=
   | l :: ls => (σ.bom.bytes.length + l.length ≤ maxLine && (σ.bom != .none || !startsWithBom l))
                && ls.all fun l => l.length ≤ maxLine && !startsWithBom l
 
-/-- The documented grammar plus the corners the documentation leaves open (see `PV.Props.C16`):
-section names are distinct (repeated headers are not merged), unquoted values are non-empty. -/
+/-- The documented grammar, line by line (see `PV.Props.C16` for what it leaves out). -/
 def WF (σ : Style) (d : Doc) : Bool :=
   d.preamble.all (·.body.wf)
   && d.secs.all (fun s => s.header.wf && s.body.all (·.body.wf))
-  && distinct (d.secs.map (·.header.name))
   && eolsOk d.eols
   && linesOk σ d
 
@@ -266,9 +301,6 @@ def docKeyCount (d : Doc) (sec : Bytes) : Nat :=
   | some (_, kvs) => kvs.length
 
 /-! ## `pstring.h`: "Removes trailing and leading whitespaces", "Tokenizes a string by given delimiters" -/
-
-/-- the string without its leading and trailing white space -/
-def trim (s : Bytes) : Bytes := ((s.dropWhile isSpace).reverse.dropWhile isSpace).reverse
 
 /-- the maximal non-empty runs of bytes that are no delimiters, in order -/
 def tokensAux (isD : UInt8 → Bool) : Bytes → Bytes → List Bytes
